@@ -184,6 +184,14 @@ impl BinRead for CimMode {
         let seltype = u8::read_options(reader, endian, ())?;
 
         let res = match discrim {
+            // the From<u8> conversions of these two submodes abort on unknown values: a value
+            // from the wire must be rejected instead
+            0 | 3 if submode > if discrim == 0 { 4 } else { 8 } => {
+                return Err(binrw::Error::BadMagic {
+                    pos,
+                    found: Box::new(submode),
+                })
+            },
             0 => Self::Normal(submode.into()),
             1 => Self::Options,
             2 => Self::HostOptions,
